@@ -175,6 +175,7 @@ class PatCtx:
         except Exception as e:  # noqa: BLE001 - classified by the caller
             self.error = e
         self.feats = sorted(ps.pattern_features(pat))
+        self.classes = [f"pat_nodes:{len(pat['nodes'])}"] + ["feat:" + f for f in self.feats] + (["commute"] if commute else [])
 
 
 def observe(pobj, H, j, remove):
@@ -211,7 +212,7 @@ def _norm_reason(r):
     return r[:90]
 
 
-def judge(view, hv, obs, sols, best, remove, gouts):
+def judge(view, hv, obs, sols, best, remove, gouts, root=None):
     """Compare one observation with the spec.  -> (list[(bucket, detail)], spec_has_instance, nontrivial)"""
     if remove:
         ok = [s for s in sols if ps.is_removable(s, hv, gouts)]
@@ -234,11 +235,14 @@ def judge(view, hv, obs, sols, best, remove, gouts):
     if not ok:
         if sols:
             why = "not-removable"
-        elif best is not None:
-            # a pattern node that declares more outputs than the host node has is one root cause whatever else differs
-            why = "num-outputs" if "num-outputs" in best else "+".join(sorted(set(best)))
         else:
-            why = "no-candidate"
+            if best is None and root is not None:  # diagnose: which constraints does the closest candidate violate?
+                _, best = ps.solve(view, hv, root, max_viol=99)
+            if best is not None:
+                # a pattern node that declares more outputs than the host node has is one root cause whatever else differs
+                why = "num-outputs" if "num-outputs" in best else "+".join(sorted(set(best)))
+            else:
+                why = "no-candidate"
         return [(f"soundness:{why}", f"impl bindings {env} nodes {nodes} outputs {outs}")], False, nontrivial
     got = (env, frozenset(nodes), outs)
     for s in ok:
@@ -283,7 +287,8 @@ class Stats:
         self.brute_checked = 0
         self.text_route = 0
         self.dup_nodes = 0
-        self.neg = 0
+        self.fast_neg = 0
+        self.fast_neg_remove = 0
 
 
 def case_json(pc, vi, host, root, remove, mode):
@@ -315,32 +320,43 @@ def run_pair(col, stt, pc, H, modes, brute_every=0, counter=None, size=0, roots=
     any_nt = False
     if pc.error is not None:
         return 0, False
+    h = stt.hist
     for vi, (pobj, view) in enumerate(zip(pc.impl, pc.views)):
         for root in (range(hv.n) if roots is None else roots):
             sols, best = ps.solve(view, hv, root)
-            if brute_every and counter is not None:
+            if brute_every:
                 counter[0] += 1
-                if counter[0] % brute_every == 0 and hv.n ** max(0, view.nnodes - 1) * max(1, len(list(_choices(view)))) <= 4096:
+                if counter[0] % brute_every == 0 and hv.n ** max(0, view.nnodes - 1) * view.nchoices <= 4096:
                     s2, _ = ps.solve(view, hv, root, brute=True)
                     stt.brute_checked += 1
                     if {s.key() for s in s2} != {s.key() for s in sols}:
                         raise RuntimeError(f"patspec self-check failed: derived {sorted(s.key() for s in sols)} vs brute "
                                            f"{sorted(s.key() for s in s2)}\n{ps.pattern_text(view.pat)}\n{ps.host_text(host)}\nroot {root}")
-            if sols:
-                stt.instances += 1
-            # remove_nodes=False once, remove_nodes=True per graph-output variant (only the variants matter where something
-            # matched without the side condition; otherwise the base variant alone)
             obs_f = observe(pobj, H, root, False)
-            todo = [(False, ("base", None), obs_f, None)]
-            interesting = bool(sols) or obs_f[0] != "no"
-            if interesting:
-                for mode in modes:
-                    todo.append((True, mode, None, None))
-            else:  # nothing matches even without the side condition: remove_nodes=True is re-checked on every 4th such triple
-                stt.neg += 1
-                if stt.neg % 4 == 0:
-                    todo.append((True, modes[0], None, None))
-            for remove, mode, obs, _ in todo:
+            if not sols and obs_f[0] == "no":
+                # fast path: nothing matches even without the side condition.  remove_nodes=True is re-checked on every
+                # 4th such triple (it can only filter further).
+                evals += 1
+                stt.fast_neg += 1
+                if best is not None:
+                    stt.nontrivial_triples += 1
+                    any_nt = True
+                    h["near_miss:" + best[0]] += 1
+                if stt.fast_neg % 4:
+                    continue
+                obs_t = observe(pobj, H, root, True)
+                stt.fast_neg_remove += 1
+                if obs_t[0] == "no":
+                    evals += 1
+                    if best is not None:
+                        stt.nontrivial_triples += 1
+                    continue
+                stt.fast_neg_remove -= 1
+                todo = [(True, modes[0], obs_t)]
+            else:
+                stt.instances += bool(sols)
+                todo = [(False, ("base", None), obs_f)] + [(True, mode, None) for mode in modes]
+            for remove, mode, obs in todo:
                 undo, gouts = apply_mode(H, mode) if remove else (None, hv.gouts)
                 try:
                     if obs is None:
@@ -348,13 +364,11 @@ def run_pair(col, stt, pc, H, modes, brute_every=0, counter=None, size=0, roots=
                 finally:
                     if undo:
                         undo()
-                verdicts, has, nt = judge(view, hv, obs, sols, best, remove, gouts)
+                verdicts, has, nt = judge(view, hv, obs, sols, best, remove, gouts, root)
                 evals += 1
-                stt.triples += 1
                 if nt:
                     stt.nontrivial_triples += 1
                     any_nt = True
-                h = stt.hist
                 h["spec_match" if has else "spec_nomatch"] += 1
                 h["impl_" + obs[0]] += 1
                 if remove:
@@ -363,12 +377,11 @@ def run_pair(col, stt, pc, H, modes, brute_every=0, counter=None, size=0, roots=
                         h["gout_" + mode[0]] += 1
                     if sols and not has:
                         h["near_miss:not-removable"] += 1
-                if not sols and best is not None and len(best) == 1:
-                    h["near_miss:" + best[0]] += 1
                 if obs[0] == "yes" and len(set(obs[2])) != len(obs[2]):
                     stt.dup_nodes += 1
                 for bucket, detail in verdicts:
                     col.violation(bucket, detail, case_json(pc, vi, host, root, remove, mode), size=size or (len(pc.pat["nodes"]) * 100 + hv.n))
+    stt.triples += evals
     return evals, any_nt
 
 
@@ -378,14 +391,11 @@ def _choices(view):
     return itertools.product(*view.nalts)
 
 
-def record_pair(col, stt, pc, H, evals, nt, key, extra_classes=()):
+def record_pair(col, stt, pc, H, evals, nt, key, extra_classes=[]):  # noqa: B006
     if not evals:
         return
-    classes = [f"pat_nodes:{len(pc.pat['nodes'])}", f"host_nodes:{H.view.n if H.view.n < 10 else '10+'}"]
-    classes += ["feat:" + f for f in pc.feats]
-    classes += list(extra_classes)
-    if pc.commute:
-        classes.append("commute")
+    classes = pc.classes + [f"host_nodes:{H.view.n if H.view.n < 10 else '10+'}"]
+    classes += extra_classes
     sample = None
     if nt and len(col.samples) < col.MAX_SAMPLES:
         sample = {"pattern": ps.pattern_text(pc.pat), "host": ps.host_text(H.ast), "commute": pc.commute}
@@ -526,7 +536,7 @@ def run_exhaustive(spec, col, stt):
                 e2, nt2 = run_pair(col, stt, pc.text, H, modes[:1])
                 stt.text_route += e2
                 evals += e2
-            record_pair(col, stt, pc, H, evals, nt, (fam, pc.pid, hi), extra_classes=("fam:" + fam,))
+            record_pair(col, stt, pc, H, evals, nt, (fam, pc.pid, hi), extra_classes=["fam:" + fam])
             done_pairs += 1
         done_hosts += 1
     col.extra["pairs_in_domain"] = {fam: total_pairs}
@@ -591,7 +601,7 @@ def run_random(spec, col, stt):
         modes = ps.gout_modes(host)[:1]
         evals, nt = run_pair(col, stt, pc, H, modes, brute_every=0)
         record_pair(col, stt, pc, H, evals, nt, ("random", ps.t(pat), ps.t(host)),
-                    extra_classes=("fam:random", "host:" + kind, "route:" + pc.route))
+                    extra_classes=["fam:random", "host:" + kind, "route:" + pc.route])
 
     drive(st.randoms(use_true_random=False), body, spec["n"], spec["seed"])
 
@@ -614,6 +624,9 @@ def run_shard(spec):
         run_random(spec, col, stt)
     else:
         run_exhaustive(spec, col, stt)
+    stt.hist["spec_nomatch"] += stt.fast_neg + stt.fast_neg_remove
+    stt.hist["impl_no"] += stt.fast_neg + stt.fast_neg_remove
+    stt.hist["remove_nodes"] += stt.fast_neg_remove
     col.hist.update(stt.hist)
     col.extra.update({"triples": stt.triples, "nontrivial_triples": stt.nontrivial_triples, "root_triples_with_instance": stt.instances,
                       "spec_brute_force_cross_checks": stt.brute_checked, "text_route_evaluations": stt.text_route,
